@@ -22,7 +22,7 @@ use serde_json::{json, Value};
 pub struct Seed { pub id: String, pub target: &'static str, pub bytes: Vec<u8>, pub spans: Vec<cfkit::parse::Span>, pub grow: &'static str }
 
 /// Grown structures (fault model: GrowSizes): kind -> target parser.
-const GROW: &[(&str, &str)] = &[("condy_fanout", "class"), ("condy_uses", "class"), ("anno_array", "class"), ("anno_anno", "class"), ("ifc_args", "class"), ("ifc_baddesc", "class"), ("method_args", "class"), ("labels", "class"),
+const GROW: &[(&str, &str)] = &[("condy_fanout", "class"), ("condy_uses", "class"), ("indy_plain_args", "class"), ("condy_plain_args", "class"), ("anno_array", "class"), ("anno_anno", "class"), ("ifc_args", "class"), ("ifc_baddesc", "class"), ("method_args", "class"), ("labels", "class"),
 	("enigma_nest", "enigma"), ("tiny_nest", "tiny"), ("tiny_unknown_nest", "tiny"), ("tinydiff_unknown_nest", "tinydiff"), ("fdesc_dims", "fdesc"), ("mdesc_dims", "mdesc"), ("desc_args", "mdesc")];
 
 const QUICK_SAMPLES: &[&str] = &["minimal_object", "exception_table", "switches", "frames_each_kind", "annotations_all_element_kinds", "type_annotations_code",
@@ -259,6 +259,35 @@ pub fn grow(kind: &str, k: usize) -> Result<Vec<u8>> {
 			code.push(0xb1);
 			let mut bytes = gclass(pool, "()V", &code, &[], (0, vec![]), (1, attr));
 			bytes[7] = 55;      // dynamic constants need class file version 55
+			bytes
+		},
+		// one bootstrap method with k plain arguments (all naming one Integer constant: the attribute takes 2 k bytes) used by
+		// 13 000 invokedynamic instructions (indy_plain_args) or by one dynamic constant that is loaded 16 000 times
+		// (condy_plain_args): every use stores its own copy of the arguments
+		"indy_plain_args" | "condy_plain_args" => {
+			let indy = kind == "indy_plain_args";
+			let mut pool = GPool::new();
+			let bsm_name = pool.utf8("BootstrapMethods");
+			let (c, nt) = (pool.class("B"), pool.nat("b", "()I"));
+			pool.bytes.push(10); pool.bytes.extend_from_slice(&c.to_be_bytes()); pool.bytes.extend_from_slice(&nt.to_be_bytes()); pool.count += 1;
+			let mref = pool.count - 1;
+			pool.bytes.push(15); pool.bytes.push(6); pool.bytes.extend_from_slice(&mref.to_be_bytes()); pool.count += 1;
+			let handle = pool.count - 1;
+			pool.bytes.push(3); pool.bytes.extend_from_slice(&7u32.to_be_bytes()); pool.count += 1;
+			let int = pool.count - 1;
+			let site_nat = if indy { pool.nat("site", "()V") } else { pool.nat("c", "I") };
+			pool.bytes.push(if indy { 18 } else { 17 }); pool.bytes.extend_from_slice(&0u16.to_be_bytes()); pool.bytes.extend_from_slice(&site_nat.to_be_bytes()); pool.count += 1;
+			let [x, y] = (pool.count - 1).to_be_bytes();
+			let mut a = vec![];
+			u2(&mut a, 1); u2(&mut a, handle); u2(&mut a, k.min(65535) as u16);
+			for _ in 0..k.min(65535) { u2(&mut a, int); }
+			let mut attr = vec![];
+			u2(&mut attr, bsm_name); u4(&mut attr, a.len() as u32); attr.extend_from_slice(&a);
+			let mut code = vec![];
+			if indy { for _ in 0..13000 { code.extend_from_slice(&[0xba, x, y, 0, 0]); } } else { for _ in 0..16000 { code.extend_from_slice(&[0x13, x, y, 0x57]); } }
+			code.push(0xb1);
+			let mut bytes = gclass(pool, "()V", &code, &[], (0, vec![]), (1, attr));
+			bytes[7] = 55;
 			bytes
 		},
 		// invokeinterface of a method with k long parameters (2 slots each; the count operand is a byte)
